@@ -63,29 +63,36 @@ structure CR where
 section labelling
 variable {V : Type}
 
-/-- one pixel of the labelling pass.  `close ref val`, `mask ij = true` = pixel is used. -/
+/-- the W rule, and for connectivity 8 the SW rule (only if W did not match):
+    (does a western neighbour match?, its provisional id).  `close ref val`; `mask ij = true` = used. -/
+def probeW (nx : Nat) (conn8 : Bool) (close : V → V → Bool) (values : Nat → V) (mask : Nat → Bool)
+    (raw : Nat → Nat) (ij : Nat) : Bool × Nat :=
+  let m0 := decide (0 < ij % nx) && mask (ij - 1) && close (values ij) (values (ij - 1))
+  let use := conn8 && decide (nx ≤ ij) && !m0 && decide (0 < ij % nx) && mask (ij - nx - 1)
+              && close (values ij) (values (ij - nx - 1))
+  (m0 || use, if use then raw (ij - nx - 1) else raw (ij - 1))
+
+/-- the S rule, and for connectivity 8 the SE rule (only if S did not match) -/
+def probeS (nx : Nat) (conn8 : Bool) (close : V → V → Bool) (values : Nat → V) (mask : Nat → Bool)
+    (raw : Nat → Nat) (ij : Nat) : Bool × Nat :=
+  let m0 := decide (nx ≤ ij) && mask (ij - nx) && close (values ij) (values (ij - nx))
+  let use := conn8 && decide (nx ≤ ij) && !m0 && decide (ij % nx + 1 < nx) && mask (ij - nx + 1)
+              && close (values ij) (values (ij - nx + 1))
+  (m0 || use, if use then raw (ij - nx + 1) else raw (ij - nx))
+
+/-- one pixel of the labelling pass -/
 def calcStep (nx : Nat) (conn8 : Bool) (close : V → V → Bool) (values : Nat → V) (mask : Nat → Bool)
     (st : CR) (ij : Nat) : CR :=
   if !mask ij then ⟨setL st.raw ij 0, st.lk, st.region⟩
   else
-    let i := ij % nx
-    let v := values ij
-    let mW0 := decide (0 < i) && mask (ij - 1) && close v (values (ij - 1))
-    let mS0 := decide (nx ≤ ij) && mask (ij - nx) && close v (values (ij - nx))
-    let useSW := conn8 && decide (nx ≤ ij) && !mW0 && decide (0 < i) && mask (ij - nx - 1)
-                  && close v (values (ij - nx - 1))
-    let useSE := conn8 && decide (nx ≤ ij) && !mS0 && decide (i + 1 < nx) && mask (ij - nx + 1)
-                  && close v (values (ij - nx + 1))
-    let mW := mW0 || useSW
-    let rW := if useSW then st.raw (ij - nx - 1) else st.raw (ij - 1)
-    let mS := mS0 || useSE
-    let rS := if useSE then st.raw (ij - nx + 1) else st.raw (ij - nx)
-    if mW && mS then
-      let lo := (minMax rW rS).1
-      let up := (minMax rW rS).2
+    let w := probeW nx conn8 close values mask st.raw ij
+    let s := probeS nx conn8 close values mask st.raw ij
+    if w.1 && s.1 then
+      let lo := (minMax w.2 s.2).1
+      let up := (minMax w.2 s.2).2
       ⟨setL st.raw ij lo, if lo ≠ up then mergeRegions st.lk lo up else st.lk, st.region⟩
-    else if mW then ⟨setL st.raw ij rW, st.lk, st.region⟩
-    else if mS then ⟨setL st.raw ij rS, st.lk, st.region⟩
+    else if w.1 then ⟨setL st.raw ij w.2, st.lk, st.region⟩
+    else if s.1 then ⟨setL st.raw ij s.2, st.lk, st.region⟩
     else ⟨setL st.raw ij (st.region + 1), st.lk, st.region + 1⟩
 
 def calcPass (nx ny : Nat) (conn8 : Bool) (close : V → V → Bool) (values : Nat → V) (mask : Nat → Bool) : CR :=
@@ -100,7 +107,14 @@ def compactStep (lk : Lookup) (st : (Nat → Nat) × Nat) (i : Nat) : (Nat → N
 def compact (lk : Lookup) (region : Nat) : (Nat → Nat) × Nat :=
   (List.range (region + 1)).foldl (compactStep lk) (fun _ => 0, 0)
 
-/-- `_calculate_regions`: the final region id of every pixel, as a list over `ij` -/
+/-- the final region id of pixel `ij` -/
+def regionId (nx ny : Nat) (conn8 : Bool) (close : V → V → Bool) (values : Nat → V)
+    (mask : Nat → Bool) (ij : Nat) : Nat :=
+  let st := calcPass nx ny conn8 close values mask
+  (compact st.lk st.region).1 (st.raw ij)
+
+/-- `_calculate_regions`: the final region id of every pixel, as a list over `ij`
+    (`= (List.range (nx*ny)).map regionId`, computed once) -/
 def calculateRegions (nx ny : Nat) (conn8 : Bool) (close : V → V → Bool) (values : Nat → V)
     (mask : Nat → Bool) : List Nat :=
   let st := calcPass nx ny conn8 close values mask
